@@ -354,3 +354,77 @@ Definition ffres_class (r : ffres) : Z :=
   | FFOk => 0 | FFWrongPeerSet => 1 | FFNotEnoughSigs => 2 | FFBadFrameHash => 3
   | FFResetError => 4 | FFPanicCheck => 5 | FFPanicReset => 6
   end.
+
+(* ---------- sequences of fast-forward interactions on one node ----------
+   Node.fastForward is called again and again while the node is CatchingUp; between two calls the
+   node keeps its core.  Nothing of the decision is carried from one call to the next: the only
+   thing an earlier response can change is what the node KNOWS, and only by being adopted.
+
+   After an adopted response (Hashgraph.Reset, c.setPeers, c.validators := latest peer set) the sets
+   the node knows are: frame.Peers (c.peers), the genesis peers (c.genesisPeers, never written),
+   the latest set of frame.PeerSets (c.validators), and every set of frame.PeerSets (Store.Reset
+   replaces the store's peer-set table by the frame's). *)
+Definition known_after (genesis : list Z) (f : ffframe) : list (list Z) :=
+  peers_digest (ff_peers f) :: genesis :: peers_digest (new_validators f)
+    :: map (fun rp => peers_digest (snd rp)) (ff_peersets f).
+
+(* outcome of one Node.fastForward: no usable answer / proxy.Restore failed / core decision *)
+Inductive nres := NNone | NRestoreFailed | NRes (r : ffres).
+
+(* one call, with the outcome of proxy.Restore as data ([restore_ok]); a failing Restore is modelled
+   as not changing the application (the harness's proxy refuses without applying) *)
+Definition node_step_gen (rl : ffrule) (known : list (list Z)) (ns : node_state)
+  (l : list (option ffresp)) (restore_ok : bool) : nres * node_state :=
+  match best_response l with
+  | None => (NNone, mkNode (ns_core ns) (ns_app ns) true)
+  | Some r =>
+    let apply :=
+      if restore_ok then
+        match restore_then_core rl known ns r with
+        | (Some res, ns') => (NRes res, ns')
+        | (None, ns') => (NNone, ns')
+        end
+      else (NRestoreFailed, ns) in
+    if rl_check_first rl then
+      match check_ff_gen rl known (r_block r) (r_frame r) with
+      | FFOk => apply
+      | res => (NRes res, ns)
+      end
+    else apply
+  end.
+Definition node_step := node_step_gen rule_fixed.
+
+Definition nres_adopted (r : nres) : bool := match r with NRes FFOk => true | _ => false end.
+
+(* the chosen response of a call (for the evolution of the known sets) *)
+Record nstep := mkStep { st_answers : list (option ffresp); st_restore_ok : bool }.
+
+(* a sequence of calls on one node: results, final node state, final known sets *)
+Fixpoint node_seq (genesis : list Z) (known : list (list Z)) (ns : node_state) (steps : list nstep)
+  : list nres * node_state * list (list Z) :=
+  match steps with
+  | [] => ([], ns, known)
+  | s :: t =>
+    let '(r, ns') := node_step known ns (st_answers s) (st_restore_ok s) in
+    let known' :=
+      if nres_adopted r then
+        match best_response (st_answers s) with
+        | Some x => known_after genesis (r_frame x)
+        | None => known
+        end
+      else known in
+    let '(rs, nsf, kf) := node_seq genesis known' ns' t in
+    (r :: rs, nsf, kf)
+  end.
+
+(* core level: a sequence of core.fastForward calls *)
+Fixpoint core_seq (genesis : list Z) (known : list (list Z)) (st : core_state)
+  (l : list (ffblock * ffframe)) : list ffres * core_state * list (list Z) :=
+  match l with
+  | [] => ([], st, known)
+  | (b, f) :: t =>
+    let '(r, st') := core_ff_fixed known st b f in
+    let known' := if is_ok r then known_after genesis f else known in
+    let '(rs, stf, kf) := core_seq genesis known' st' t in
+    (r :: rs, stf, kf)
+  end.
